@@ -166,8 +166,10 @@ class FragContract:
     def spec(self, cx, ex, st):
         raise NotImplementedError
 
+    HIDE = ('user_names', 'user_sorts', 'binds', 'scope_names', 'globals', 'frame_extra')
+
     def label(self, cfg):
-        return ','.join(f'{k}={v}' for k, v in cfg.items())
+        return ','.join(f'{k}={v}' for k, v in cfg.items() if k not in self.HIDE)
 
 
 # ---------------------------------------------------------------------------------------------- hooks
@@ -447,7 +449,8 @@ def verify_config(contract, cfg, both=False, z3_timeout=None):
         nreplays = 0
         for vc in vcs:
             kw = {} if z3_timeout is None else {'z3_timeout': z3_timeout}
-            v = discharge(vc, ex.axioms, both=both and vc.kind != 'cover', **kw)
+            small = [[cx.N <= b] for b in (3, 8, 40)] if vc.kind != 'cover' else None
+            v = discharge(vc, ex.axioms, both=both and vc.kind != 'cover', small=small, **kw)
             if vc.kind == 'cover':
                 # must be SAT (hypotheses consistent)
                 if v.status == 'unsat':
